@@ -1,5 +1,5 @@
 """C19 -- copies of library objects (rule kind K8, DESIGN.md section 3/C19)."""
-from ..ir import load_program, strip_casts
+from ..ir import load_program, strip_casts, norm_callee
 from ..build import AnalysisBroken
 from ..copyflow import Engine, Flow, U, N, B, F, K, X, ALLOCATORS
 from ..util import resolve_ptr, is_ptr, is_fnptr, struct_of_type
@@ -113,6 +113,81 @@ def verify_always_null(prog, owner, path):
     return bad
 
 
+def copy_routine_paths(chk, prog, rule="H6-paths"):
+    """container copy routines of the form  f(T *dst, const T *src)  (one parameter is only read, the other written
+    through): every path that returns success reads the same set of source fields.  A shortcut that returns success
+    after looking at fewer fields than the regular path hands out a copy that lacks what the regular path would have
+    taken over (loop bodies are looked at once)."""
+    import re
+    from .c13 import _e7_walk
+    n = 0
+    seen = set()
+
+    class _Start:
+        pass
+    for f in prog.functions():
+        if f.decl or "/test/" in f.unit.src or f.qname in seen:
+            continue
+        ps = [p_ for p_ in f.params if re.match(r"^%struct\.[\w.]+\*$", p_.ty)]
+        bytype = {}
+        for p_ in ps:
+            bytype.setdefault(re.sub(r"\.\d+\*$", "*", p_.ty), []).append(p_)
+        pair = [l for l in bytype.values() if len(l) == 2]
+        if len(pair) != 1 or f.ret not in ("i32", "i64"):
+            continue
+        f.build()
+
+        def written(p_):
+            for i in f.insts():
+                if i.op == "store":
+                    q = strip_casts(i.ops[1])
+                    if q.is_inst and q.op == "getelementptr" and strip_casts(q.ops[0]) is p_:
+                        return True
+                elif i.op == "call" and norm_callee(i.callee) in ("memset", "memcpy") and i.ops and strip_casts(i.ops[0]) is p_:
+                    return True
+            return False
+        a, b = pair[0]
+        wa, wb = written(a), written(b)
+        if wa == wb:
+            continue
+        src = b if wa else a
+        # it has to look like a copy: the source's fields are read
+        reads = [i for i in f.insts() if i.op == "load" and strip_casts(i.ops[0]).is_inst and
+                 strip_casts(i.ops[0]).op == "getelementptr" and strip_casts(i.ops[0]).field() and
+                 strip_casts(strip_casts(i.ops[0]).ops[0]) is src]
+        if len(reads) < 2 or "copy" not in f.name and "clone" not in f.name and "dup" not in f.name:
+            continue
+        seen.add(f.qname)
+        st = _Start()
+        st.bb = f.blocks[0]
+        sets = []
+        for (v, r, path) in _e7_walk(prog, f, st, None, [], set()):
+            if not (v.is_const and v.is_int and v.sval == 0):
+                continue
+            fields = set()
+            for b_ in path:
+                for i in b_.insts:
+                    if i.op == "load":
+                        q = strip_casts(i.ops[0])
+                        if q.is_inst and q.op == "getelementptr" and q.field() and strip_casts(q.ops[0]) is src:
+                            fields.add(q.field()[1])
+            sets.append((frozenset(fields), r))
+        if not sets:
+            continue
+        n += 1
+        chk.analysed(f)
+        full = frozenset().union(*[s_ for (s_, _r) in sets])
+        short = [(s_, r) for (s_, r) in sets if s_ != full]
+        inst = "%s:success-paths" % f.name
+        if not short:
+            chk.ok(rule, inst, f, "all %d success paths read the source fields %s" % (len(sets), sorted(full)))
+        else:
+            s_, r = short[0]
+            chk.violation(rule, inst, r, "a path returns success after reading only %s of the source, the regular path reads %s: "
+                          "the copy handed out on that path lacks %s" % (sorted(s_), sorted(full), sorted(full - s_)))
+    return n
+
+
 def run(chk):
     prog = load_program("libsquashfs.la")
     chk.explanation = (
@@ -122,7 +197,7 @@ def run(chk):
         "at the same sqfs_object_init site yields the set of slots it releases. H1 header initialised on every "
         "success path, H2 every released slot re-acquired (or null, or exempt under the same immutable-flag "
         "predicate), H3 no pointer slot keeps aliasing the original, no write/release through a bit-copied "
-        "pointer (error paths included); container copy helpers are analysed with the same engine (H4). H5-state: fields that the library accumulates over an object's life (x = x +/- k somewhere) are taken over by nodes that a copy hook allocates (whole-node copy or field read from the source).")
+        "pointer (error paths included); container copy helpers are analysed with the same engine (H4). H5-state: fields that the library accumulates over an object's life (x = x +/- k somewhere) are taken over by nodes that a copy hook allocates (whole-node copy or field read from the source). H6-paths: every success path of a container copy routine f(T *dst, const T *src) reads the same source fields.")
     chk.assumptions = [
         "library/codec functions behave as named in the tables of sa/copyflow.py (release / pure / writes-arg)",
         "behavioural equivalence of copy and original and leak freedom are not decided",
@@ -156,6 +231,8 @@ def run(chk):
         check_pair(chk, prog, eng, h, d)
     from ..acccopy import run_acccopy
     run_acccopy(chk, prog, "H5-state", hooks, lambda src: "/test/" not in src)
+    copy_routine_paths(chk, load_program("all"), "H6-paths")
+    chk.floor("H6-paths", 3)
     chk.floor("H5-state", 3)
     chk.floor("H1", 13)
     chk.floor("H2", 20)
